@@ -402,10 +402,24 @@ pub fn world_to_tile(world_x: f32, world_y: f32) -> (u32, u32) {
     const MAP_SIZE: f32 = 533.333_3;
     const MAP_OFFSET: f32 = 32.0 * MAP_SIZE;
 
-    let tile_x = ((MAP_OFFSET - world_y) / MAP_SIZE) as u32;
-    let tile_y = ((MAP_OFFSET - world_x) / MAP_SIZE) as u32;
+    // A tile corner produced by `tile_to_world` lies exactly on a tile boundary, and the
+    // f32 subtraction/division can land a few ULPs below the whole number (e.g. 3.9999995
+    // for tile 4), which truncation would turn into the neighbouring tile. Quotients within
+    // BOUNDARY_EPSILON tiles (about 5 cm) of a whole number are snapped to it first.
+    const BOUNDARY_EPSILON: f32 = 1.0e-4;
 
-    (tile_x.min(63), tile_y.min(63))
+    fn index(offset: f32) -> u32 {
+        let tile = offset / MAP_SIZE;
+        let nearest = tile.round();
+        let tile = if (tile - nearest).abs() <= BOUNDARY_EPSILON {
+            nearest
+        } else {
+            tile
+        };
+        (tile as u32).min(63)
+    }
+
+    (index(MAP_OFFSET - world_y), index(MAP_OFFSET - world_x))
 }
 
 #[cfg(test)]
